@@ -112,6 +112,13 @@ def CD (e : Env) (f32 : List Char → Option (List Char)) (items : List (Tagged 
   ∀ tag b p, d tag = some (b, p) →
     ∃ tg, lookupTagged items tag = some tg ∧ tg.isBlock = b ∧ ∀ ctx, CP e f32 tg.item (p ctx)
 
+/-- an element that matches the empty token list matches it any number of times (this is why the array loop may
+    stop at the first element that consumes nothing: the remaining `dim - k` elements would all be empty too) -/
+theorem confRep_nil {strict : Bool} {f32 : List Char → Option (List Char)} {sp : Spec} (h : Conf strict f32 sp []) :
+    ∀ m, ConfRep strict f32 sp m []
+  | 0 => .zero
+  | m + 1 => ConfRep.succ (l1 := []) (l2 := []) h (confRep_nil h m)
+
 theorem arrayLoop_conf {f32 : List Char → Option (List Char)} {of : Spec} {p : PM Gen} (hp : CP e f32 of p) :
     ∀ (n : Nat) (s : PState) (vs : List Gen) (s' : PState), s.pos ≤ e.toks.size → arrayLoop p n e s = .ok vs s' →
     s.pos ≤ s'.pos ∧ s'.pos ≤ e.toks.size ∧ ConfRep e.strict f32 of n (span e.toks s.pos s'.pos)
@@ -122,13 +129,21 @@ theorem arrayLoop_conf {f32 : List Char → Option (List Char)} {of : Spec} {p :
     exact ⟨Nat.le_refl _, hs, .zero⟩
   | n + 1, s, vs, s', hs, h => by
     rw [arrayLoop] at h
+    simp only [getTokenpos_bind] at h
     obtain ⟨v, s1, h1, h2⟩ := bind_ok h
-    obtain ⟨vs', s2, h3, h4⟩ := bind_ok h2
-    obtain ⟨rfl, rfl⟩ := pure_ok h4
+    simp only [getTokenpos_bind] at h2
     have r1 := hp s v s1 hs h1
-    have r2 := arrayLoop_conf hp n s1 vs' s2 r1.2.1 h3
-    rw [span_append e.toks r1.1 r2.1]
-    exact ⟨Nat.le_trans r1.1 r2.1, r2.2.1, .succ r1.2.2 r2.2.2⟩
+    split at h2
+    · rename_i heq
+      obtain ⟨rfl, rfl⟩ := pure_ok h2
+      have hc := r1.2.2
+      rw [heq, span_self] at hc ⊢
+      exact ⟨Nat.le_refl _, hs, confRep_nil hc _⟩
+    · obtain ⟨vs', s2, h3, h4⟩ := bind_ok h2
+      obtain ⟨rfl, rfl⟩ := pure_ok h4
+      have r2 := arrayLoop_conf hp n s1 vs' s2 r1.2.1 h3
+      rw [span_append e.toks r1.1 r2.1]
+      exact ⟨Nat.le_trans r1.1 r2.1, r2.2.1, .succ r1.2.2 r2.2.2⟩
 
 theorem seqLoop_conf {f32 : List Char → Option (List Char)} {of : Spec} {p : PM Gen} (hp : CP e f32 of p) :
     ∀ (fuel : Nat) (acc : List Gen) (s : PState) (vs : List Gen) (s' : PState), s.pos ≤ e.toks.size →
@@ -429,16 +444,22 @@ theorem fromSpec_conf {f32 : List Char → Option (List Char)} {ctx : Ctx} {sp :
     cases h1
   rcases attempt_ok h with ⟨g0, s1, h1, h2⟩ | ⟨d, s1, h1, h2⟩
   · dsimp only at h2
-    simp only [peekToken_bind] at h2
-    cases ht : e.toks[s1.pos]? with
-    | none => rw [ht] at h2; exact (hreset s1 h2).elim
+    simp only [getEnv_bind] at h2
+    obtain ⟨u, s2, h3, h4⟩ := bind_ok h2
+    have r1 := itemP_conf f32 sp ctx s g0 s1 hs h1
+    have r2 := skipComments_ok f32 ctx _ s1 u s2 h3 r1.2.1
+    simp only [peekToken_bind] at h4
+    cases ht : e.toks[s2.pos]? with
+    | none => rw [ht] at h4; exact (hreset s2 h4).elim
     | some t =>
-      rw [ht] at h2
-      dsimp only at h2
-      split at h2
-      · obtain ⟨_, rfl⟩ := pure_ok h2
-        exact itemP_conf f32 sp ctx s g0 s1 hs h1
-      · exact (hreset s1 h2).elim
+      rw [ht] at h4
+      dsimp only at h4
+      split at h4
+      · obtain ⟨_, rfl⟩ := pure_ok h4
+        refine ⟨Nat.le_trans r1.1 r2.1, r2.2.1, ?_⟩
+        rw [span_append e.toks r1.1 r2.1, rel_nil_inv r2, List.append_nil]
+        exact r1.2.2
+      · exact (hreset s2 h4).elim
   · exact (hreset s1 h2).elim
 
 theorem trySpecs_conf {f32 : List Char → Option (List Char)} {ctx : Ctx} : ∀ (specs : List Spec) (s : PState)
